@@ -53,6 +53,15 @@ pub enum Native {
 	VecsRefs(Kind),
 	/// `new` over a Vec of `&mut` references to fresh locks, listed in DESCENDING address order. 0 = Owned, 1 = Boxed, 2 = Retrying, 3 = Ref
 	MutRefs(u8, usize),
+	/// a tuple of `n` (1..=7) members: references to fresh locks listed in DESCENDING address order for
+	/// 0 = Boxed, 1 = Ref, 2 = Retrying; fresh owned locks for 3 = Owned
+	TupN(u8, usize),
+	/// Boxed / Ref / Retrying over `(&Owned<Vec<&mut RwLock>>, &RwLock)`: the owned unit lists its `n` members in
+	/// DESCENDING address order
+	OwnedDescIn(Kind, usize),
+	/// `new` over an owned tuple of an empty owned collection (zero-sized) and a fresh lock; `true` = the
+	/// zero-sized member is listed first. 0 = Boxed, 1 = Ref, 2 = Retrying, 3 = Owned
+	ZstOwned(u8, bool),
 	/// two distinct zero-sized members (empty owned collections): duplicate-free by identity
 	ZstPair(Kind),
 	/// zero-sized members around two references r_i, r_j: a duplicate iff i == j
@@ -88,7 +97,7 @@ impl Spec {
 		match self {
 			Spec::Coll(Kind::Retry, _) => true,
 			Spec::Pois(i) => i.retrying(),
-			Spec::Native(n) => matches!(n, Native::Arr3(Kind::Retry, _) | Native::TupMR(Kind::Retry, ..) | Native::Slice(Kind::Retry, _) | Native::NewOW(Kind::Retry, _) | Native::VecsNew(Kind::Retry) | Native::VecsRefs(Kind::Retry) | Native::MutRefs(2, _) | Native::ZstPair(Kind::Retry) | Native::ZstAround(Kind::Retry, ..) | Native::RetryNewVec(_) | Native::RetryNewArr3 | Native::RetryOwnedR(_)),
+			Spec::Native(n) => matches!(n, Native::Arr3(Kind::Retry, _) | Native::TupMR(Kind::Retry, ..) | Native::Slice(Kind::Retry, _) | Native::NewOW(Kind::Retry, _) | Native::VecsNew(Kind::Retry) | Native::VecsRefs(Kind::Retry) | Native::MutRefs(2, _) | Native::TupN(2, _) | Native::ZstOwned(2, _) | Native::OwnedDescIn(Kind::Retry, _) | Native::ZstPair(Kind::Retry) | Native::ZstAround(Kind::Retry, ..) | Native::RetryNewVec(_) | Native::RetryNewArr3 | Native::RetryOwnedR(_)),
 			_ => false,
 		}
 	}
@@ -168,7 +177,7 @@ impl Spec {
 			Spec::Native(n) => {
 				let s = format!("{:?}", n);
 				s.split(|c| c == '(' || c == '[').next().unwrap().to_string() + &match n {
-					Native::Arr3(k, _) | Native::TupMR(k, ..) | Native::Slice(k, _) | Native::NewOW(k, _) | Native::VecsNew(k) | Native::VecsRefs(k) | Native::ZstPair(k) | Native::ZstAround(k, ..) => format!("<{}>", k.short()),
+					Native::Arr3(k, _) | Native::TupMR(k, ..) | Native::Slice(k, _) | Native::NewOW(k, _) | Native::VecsNew(k) | Native::VecsRefs(k) | Native::ZstPair(k) | Native::ZstAround(k, ..) | Native::OwnedDescIn(k, _) => format!("<{}>", k.short()),
 					_ => String::new(),
 				}
 			}
@@ -502,6 +511,83 @@ impl<'w> World<'w> {
 						1 => st.stash(BoxedLockCollection::new(refs)),
 						2 => st.stash(RetryingLockCollection::new(refs)),
 						_ => st.stash(RefLockCollection::new(st.stash(refs))),
+					}
+				}
+				Native::TupN(which, n) => {
+					let unit = if *which == 3 { self.new_unit() } else { 0 };
+					let (v, ids) = self.fresh_rs(*n, unit);
+					macro_rules! refs_tuple {
+						($b:expr; $($i:tt)*) => { ($(&$b[$b.len() - 1 - $i],)*) };
+					}
+					macro_rules! owned_tuple {
+						($it:expr; $($i:tt)*) => { ($({ let _ = $i; $it.next().unwrap() },)*) };
+					}
+					macro_rules! build_tup {
+						($($i:tt)*) => {{
+							if *which == 3 {
+								leaves = ids.clone();
+								let mut it = v.into_iter();
+								st.stash(OwnedLockCollection::new(owned_tuple!(it; $($i)*)))
+							} else {
+								let boxed: &'w Box<[R]> = st.stash(v.into_boxed_slice());
+								leaves = ids.iter().rev().copied().collect();
+								let t = refs_tuple!(boxed; $($i)*);
+								match which {
+									0 => st.stash(BoxedLockCollection::try_new(t)?) as &'w dyn Coll,
+									1 => st.stash(RefLockCollection::try_new(st.stash(t))?) as &'w dyn Coll,
+									_ => st.stash(RetryingLockCollection::try_new(t)?) as &'w dyn Coll,
+								}
+							}
+						}};
+					}
+					match n {
+						1 => build_tup!(0),
+						2 => build_tup!(0 1),
+						3 => build_tup!(0 1 2),
+						4 => build_tup!(0 1 2 3),
+						5 => build_tup!(0 1 2 3 4),
+						6 => build_tup!(0 1 2 3 4 5),
+						7 => build_tup!(0 1 2 3 4 5 6),
+						_ => panic!("harness: tuple arity {}", n),
+					}
+				}
+				Native::OwnedDescIn(k, n) => {
+					let unit = self.new_unit();
+					let (v, ids) = self.fresh_rs(*n, unit);
+					let boxed: &'w mut Box<[R]> = st.stash_mut(v.into_boxed_slice());
+					let mut refs: Vec<&'w mut R> = boxed.iter_mut().collect();
+					refs.reverse();
+					let ow: &'w OwnedLockCollection<Vec<&'w mut R>> = st.stash(OwnedLockCollection::new(refs));
+					let extra = self.fresh(true, 0);
+					let r: &'w R = st.stash(reg_r(extra));
+					leaves = ids.iter().rev().copied().collect();
+					leaves.push(extra);
+					match k {
+						Kind::Boxed => st.stash(BoxedLockCollection::try_new((ow, r))?),
+						Kind::Ref => st.stash(RefLockCollection::try_new(st.stash((ow, r)))?),
+						Kind::Retry => st.stash(RetryingLockCollection::try_new((ow, r))?),
+					}
+				}
+				Native::ZstOwned(which, first) => {
+					let unit = if *which == 3 { self.new_unit() } else { 0 };
+					let id = self.fresh(true, unit);
+					leaves = vec![id];
+					if *first {
+						let data = (OwnedLockCollection::new([]), reg_r(id));
+						match which {
+							0 => st.stash(BoxedLockCollection::new(data)),
+							1 => st.stash(RefLockCollection::new(st.stash(data))),
+							2 => st.stash(RetryingLockCollection::new(data)),
+							_ => st.stash(OwnedLockCollection::new(data)),
+						}
+					} else {
+						let data = (reg_r(id), OwnedLockCollection::new([]));
+						match which {
+							0 => st.stash(BoxedLockCollection::new(data)),
+							1 => st.stash(RefLockCollection::new(st.stash(data))),
+							2 => st.stash(RetryingLockCollection::new(data)),
+							_ => st.stash(OwnedLockCollection::new(data)),
+						}
 					}
 				}
 				Native::VecsNew(k) => {
